@@ -345,3 +345,118 @@ for _key in TREE_SRC:
 OBLIGATIONS.append(Ob('level_guard', ob_level, ['0 <= level0 <= 250', '0 <= k <= 8'], timeout=tier(200, 900),
                       data='initial recursion level 0..250 of the caller-supplied namespace (the guard trips above 200), fault position k',
                       selectors='sub-template template and blocks template called with client + keywords'))
+
+
+# ---------------------------------------------------------------- wave 3: shapes (what the fixed namespaces above never vary)
+SRC_CONDS = (
+    '<dtml-var pb1><dtml-if c1>a<dtml-elif c2>b<dtml-call f1><dtml-elif c3>c<dtml-else>d<dtml-call f2></dtml-if><dtml-var pa1>'
+    '<dtml-var pb2><dtml-let q=f3><dtml-if c2>x<dtml-elif c1><dtml-call f4><dtml-elif "c4">w</dtml-if></dtml-let><dtml-var pa2>'
+    '<dtml-var pb3><dtml-in seq mapping><dtml-unless c3><dtml-if c4>y<dtml-elif c1>z</dtml-if></dtml-unless><dtml-call c2></dtml-in><dtml-var pa3>'
+    '<dtml-var pb4><dtml-try><dtml-if c1><dtml-elif c2><dtml-elif c3><dtml-elif c4></dtml-if><dtml-call f5><dtml-except>h</dtml-try><dtml-var pa4>'
+)
+T['conds'] = HTML(SRC_CONDS, tdef=1)
+T['conds'].cook()
+
+
+def run_conds(k, ret1, t1, t2, t3, t4, d1, d2, d3, d4):
+    env = Env(k, 0, ret1, False)
+    md = env.md
+    ns = build_ns(env)
+    for name, tv, dv in (('c1', t1, d1), ('c2', t2, d2), ('c3', t3, d3), ('c4', t4, d4)):
+        if dv:
+            ns[name] = Stub(env, 1 if tv else 0)
+        else:
+            ns.pop(name, None)
+    md._push({'base': 0})
+    md._push(ns)
+    md.level = 3
+    before = env.snap()
+    try:
+        T['conds'](None, md)
+    except (Boom, SystemError):
+        pass
+    except (KeyError, NameError):
+        pass          # <dtml-call c2> / "c4" with an undefined name
+    return env.snap() == before and balanced(env)
+
+
+def make_shape_conds(d1, d2):
+    def ob(k: int, ret1: bool, t1: bool, t2: bool, t3: bool, t4: bool, d3: bool, d4: bool) -> bool:
+        """conditionals with several named conditions: truth value and definedness of every condition selected, one fault"""
+        a = pick(k, 15)
+        r1, b1, b2, b3, b4, e3, e4 = bool(ret1), bool(t1), bool(t2), bool(t3), bool(t4), bool(d3), bool(d4)
+        with NoTracing():
+            return run_conds(a, r1, b1, b2, b3, b4, d1, d2, e3, e4)
+    ob.__name__ = 'ob_shape_conds_%d%d' % (d1, d2)
+    return ob
+
+
+for _d1 in (False, True):
+    for _d2 in (False, True):
+        OBLIGATIONS.append(Ob('shape_conds_%d%d' % (_d1, _d2), make_shape_conds(_d1, _d2), ['0 <= k <= 14'], timeout=tier(280, 1200), path_timeout=60,
+                              data='-', selectors='if/elif/else chains with 2-4 named conditions at top level, inside let, inside in+unless, inside try: truth value of '
+                              'four condition names and definedness of c3, c4 (6 bits; c1 %sdefined, c2 %sdefined), fault position 0..14, fault kind' % (
+                                  '' if _d1 else 'un', '' if _d2 else 'un'),
+                              outside='chains longer than four conditions', stubs='render runs untraced once the selectors are fixed on the path'))
+
+TREE_OPTS_SRC = ('<dtml-var pb1><dtml-let lq=lv><dtml-try><dtml-tree root branches=tpValues leaves=leafdoc expand=expdoc header=hdrdoc footer=ftrdoc%s>'
+                 '<dtml-var title></dtml-tree><dtml-except>t</dtml-try><dtml-var pb2><dtml-var pa2></dtml-let><dtml-var pa1>')
+T['tree_opts'] = HTML(TREE_OPTS_SRC % '', tdef=1)
+T['tree_opts_assume'] = HTML(TREE_OPTS_SRC % ' assume_children=1', tdef=1)
+T['tree_opts_sort'] = HTML(TREE_OPTS_SRC % ' sort=id reverse=1', tdef=1)
+for _k in ('tree_opts', 'tree_opts_assume', 'tree_opts_sort'):
+    T[_k].cook()
+DOC2 = HTML('<dtml-var qb1><dtml-call s2><dtml-var qa1>')
+DOC2.cook()
+
+
+def run_tree_opts(key, k, ret1, leaf, exp, hdr, ftr, state_sel, mode_sel):
+    from TreeDisplay.TreeTag import encode_seq
+    env = Env(k, 0, ret1, False)
+    md = env.md
+    mode = 'expand_all' if mode_sel == 1 else 'collapse_all' if mode_sel == 2 else None
+    ns = build_ns(env, mode)
+    ns['lv'] = 1
+    del ns['leafdoc']
+    if leaf:
+        ns['leafdoc'] = LEAF
+    if exp:
+        ns['expdoc'] = DOC2
+    if hdr:
+        ns['hdrdoc'] = LEAF
+    if ftr:
+        ns['ftrdoc'] = DOC2
+    # which nodes are open (the state cookie): nothing / root / root+a / root+a+b(childless)+c
+    if state_sel == 1:
+        ns['tree-s'] = encode_seq([['r']])
+    elif state_sel == 2:
+        ns['tree-s'] = encode_seq([['r', [['a']]]])
+    elif state_sel == 3:
+        ns['tree-s'] = encode_seq([['r', [['a'], ['b'], ['c']]]])
+    md._push({'base': 0})
+    md._push(ns)
+    md.level = 3
+    before = env.snap()
+    try:
+        T[key](None, md)
+    except (Boom, SystemError):
+        pass
+    return env.snap() == before and balanced(env)
+
+
+def make_tree_opts(key):
+    def ob(k: int, ret1: bool, leaf: bool, exp: bool, hdr: bool, ftr: bool, st: int, mode: int) -> bool:
+        a, s, m = pick(k, 13), pick(st, 4), pick(mode, 3)
+        r1, lf, ex, hd, ft = bool(ret1), bool(leaf), bool(exp), bool(hdr), bool(ftr)
+        with NoTracing():
+            return run_tree_opts(key, a, r1, lf, ex, hd, ft, s, m)
+    ob.__name__ = 'ob_' + key
+    return ob
+
+
+for _k in ('tree_opts', 'tree_opts_assume', 'tree_opts_sort'):
+    OBLIGATIONS.append(Ob('shape_' + _k, make_tree_opts(_k), ['0 <= k <= 12', '0 <= st <= 3', '0 <= mode <= 2'], timeout=tier(280, 1200), path_timeout=60,
+                          data='-', selectors='dtml-tree with leaves= / expand= / header= / footer= documents each defined or NOT defined in the namespace (4 bits), '
+                          'open-node state from the cookie (none / root / root+a / root+a+b+c), expand_all / collapse_all / neither, one fault position 0..12 and kind; '
+                          'stack compared before/after the tag and around an enclosing let',
+                          stubs='render runs untraced once the selectors are fixed on the path'))
